@@ -434,6 +434,14 @@ class Gen:
                     f["rep"]["default"] = [1, 2][: rng.randint(1, 2)]
             elif wrap == "opt":
                 f["opt"] = {"when": self.dyn_cond(ints, datas)}
+                if rng.random() < self.p["p_default"] * 0.8:
+                    # a declared default for the optional field (held by default-constructed packets)
+                    if f["t"] == "int":
+                        f["opt"]["default"] = rng.choice([0, 1, 5])
+                    elif f["t"] == "data" and f["mode"] == "const":
+                        f["opt"]["default"] = bytes(rng.choice(b"opq\x00") for _ in range(f["size"]))
+                    elif f["t"] == "data" and f["mode"] in ("dyn", "marker"):
+                        f["opt"]["default"] = rng.choice([b"", b"k"])
             if not self.p["flat"] and rng.random() < self.p["p_move"]:
                 f["move"] = self.gen_move(ints, pos_lb)
             fields.append(f)
